@@ -141,6 +141,7 @@ fn c05_scenarios(thorough: bool) -> Vec<Scenario> {
                             src_len: len,
                             order,
                             file_repeat: 0,
+ vec_repeat: 0,
                         },
                         d_all,
                     ));
@@ -159,6 +160,7 @@ fn c05_scenarios(thorough: bool) -> Vec<Scenario> {
                         src_len: len,
                         order,
                         file_repeat: 0,
+ vec_repeat: 0,
                     },
                     1,
                 ));
@@ -175,6 +177,7 @@ fn c05_scenarios(thorough: bool) -> Vec<Scenario> {
                 src_len: 5,
                 order,
                 file_repeat: 0,
+ vec_repeat: 0,
             },
             d_all,
         ));
@@ -191,6 +194,7 @@ fn c05_scenarios(thorough: bool) -> Vec<Scenario> {
                     src_len: 0,
                     order,
                     file_repeat: 0,
+ vec_repeat: 0,
                 },
                 if thorough { 2 } else { 1 },
             ));
@@ -204,6 +208,7 @@ fn c05_scenarios(thorough: bool) -> Vec<Scenario> {
             src_len: 0,
             order: vec![0, 1, 2],
             file_repeat: 0,
+ vec_repeat: 0,
         },
         2,
     ));
@@ -218,6 +223,7 @@ fn c05_scenarios(thorough: bool) -> Vec<Scenario> {
                     src_len: len,
                     order,
                     file_repeat: 0,
+ vec_repeat: 0,
                 },
                 1,
             ));
@@ -233,6 +239,7 @@ fn c05_scenarios(thorough: bool) -> Vec<Scenario> {
                 src_len: len,
                 order: vec![0, 1, 2],
                 file_repeat: 0,
+ vec_repeat: 0,
             },
             d_all + 1,
         ));
@@ -438,6 +445,7 @@ fn c04_scenarios(_thorough: bool) -> Vec<Scenario> {
                     src_len: len,
                     order,
                     file_repeat: 0,
+ vec_repeat: 0,
                 },
                 2,
             ));
